@@ -156,7 +156,13 @@ func cmdCheck(args []string) {
 	var knownLines, knownObls []string
 	slowest, slowestName := 0.0, ""
 	var bounded []string
-	replayDir := filepath.Join(verifDir, "replays", *prop)
+	// GOVC_OUT redirects what a run writes (evidence, replays): used by the must-fail self test of
+	// the thorough tier, which must not overwrite the evidence of the real run
+	outDir := verifDir
+	if o := os.Getenv("GOVC_OUT"); o != "" {
+		outDir = o
+	}
+	replayDir := filepath.Join(outDir, "replays", *prop)
 
 	for _, tr := range all {
 		for _, a := range tr.Assumptions {
@@ -327,9 +333,9 @@ func cmdCheck(args []string) {
 		"wall_s":      round3(time.Since(t0).Seconds()),
 		"violations":  violations,
 	}
-	os.MkdirAll(filepath.Join(verifDir, "evidence"), 0o755)
+	os.MkdirAll(filepath.Join(outDir, "evidence"), 0o755)
 	data, _ := json.MarshalIndent(ev, "", " ")
-	os.WriteFile(filepath.Join(verifDir, "evidence", *prop+".json"), append(data, '\n'), 0o644)
+	os.WriteFile(filepath.Join(outDir, "evidence", *prop+".json"), append(data, '\n'), 0o644)
 
 	fmt.Printf("%s: %d obligations, %d discharged, %d violations, %d known findings, %d machinery problems, %.1fs\n",
 		*prop, nObl, nDis, violations, len(seen), machinery, time.Since(t0).Seconds())
